@@ -33,11 +33,13 @@ RULE = ("One case = one whole event history applied to a fresh FSM (kinds fsm / 
         "canonical prefix, event A runs on one goroutine and is parked inside its first notification (or send) "
         "callback by a gate; event B is injected from a second goroutine; the recorded stream and final state must be "
         "those of the sequential history A;B (events are atomic), tlu/tld must alternate and an acknowledged "
-        "Terminate-Request must leave Opened. Restore() and Kill() are driven as extra ops R / K in every canonical state "
-        "and inside random walks. Kind late (real time.AfterFunc timer, -race): the pending restart timer is re-armed with "
-        "a 40 ms period, event A is parked in its first callback until the timer has fired, so the timer callback waits "
-        "for the mutex while A stops/restarts the timer; a stopped/restarted timer's fire must be ignored, a pending one "
-        "must fire. The T event only exists while a timer is pending. Non-trivial: the history produced at least one send or callback. "
+        "Terminate-Request must leave Opened; 'B is waiting for A' is a handshake on the FSM mutex (waiter count of the "
+        "mutex state word, self-tested against a goroutine dump), not a timeout, and the mutex is probed with TryLock "
+        "while A is parked. Timer expiry (T) is never emulated: the real time.Timer (armed for 10 h) is fired with "
+        "Reset(0) while the harness holds the FSM mutex, so the production callback closure runs with the generation "
+        "it captured; X fires the most recently dropped timer object (superseded generation), conc op F fires the "
+        "timer that was pending before A while A is parked; Y is the exported Timeout(). Restore() and Kill() are driven as extra ops R / K in every canonical state "
+        "and inside random walks. Non-trivial: the history produced at least one send or callback. "
         "Distinct: by case text. The distribution records how many (state, RFC event class) cells of the 10x17 table "
         "were exercised and how many conc cases really overlapped.")
 TRUSTED = ["the option handler is abstracted to the class of its answer (good/nak/rej/both) for the automaton; "
@@ -423,7 +425,8 @@ def distribution(cases, impl):
     cells = {x for x in cells if x[1] != "overlapped-pair" and not x[1].startswith("admin-")}
     d["cells_hit"] = len({(a, b) for a, b, _ in cells})
     d["cells_x_counterclass_hit"] = len(cells)
-    # 10 states x (17 RFC classes + discarded), minus RXJ+ outside Opened (9) and TO+/TO- in the four states in
-    # which no timer can be pending (Initial, Starting, Closed, Opened: 8)
-    d["cells_total"] = 10 * 18 - 9 - 8
+    # 10 states x (17 RFC classes + discarded), minus RXJ+ outside Opened (9) and TO+/TO- in the three states in
+    # which no timer can be pending (Initial, Starting, Opened: 6).  A timer can be left pending in Stopped (RXJ- from
+    # Req-Sent/Ack-Rcvd/Ack-Sent does not stop it) and from there in Closed (Close).
+    d["cells_total"] = 10 * 18 - 9 - 6
     return d
